@@ -208,10 +208,13 @@ func (s *TxStore) insertMemPoolTx(tx mwdb.DBTransaction, rec *TxRecord) error {
 
 func (s *TxStore) insertMinedTx(tx mwdb.DBTransaction, allBalances map[string]massutil.Amount, rec *TxRecord, block *BlockMeta) error {
 	nsTxRecords := tx.FetchBucket(s.bucketMeta.nsTxRecords)
-	if _, v := existsTxRecord(nsTxRecords, &rec.Hash, block); v != nil {
+	_, v, err := existsTxRecord(nsTxRecords, &rec.Hash, block)
+	if err != nil {
+		return err
+	}
+	if v != nil {
 		return nil
 	}
-	var err error
 	nsBlocks := tx.FetchBucket(s.bucketMeta.nsBlocks)
 	blockKey, blockValue, err := existsBlockRecord(nsBlocks, block.Height)
 	if err != nil {
@@ -240,7 +243,7 @@ func (s *TxStore) insertMinedTx(tx mwdb.DBTransaction, allBalances map[string]ma
 	// If this transaction previously existed within the store as unmined,
 	// we'll need to remove it from the unmined bucket.
 	nsUnmined := tx.FetchBucket(s.bucketMeta.nsUnmined)
-	v, err := existsRawUnmined(nsUnmined, rec.Hash[:])
+	v, err = existsRawUnmined(nsUnmined, rec.Hash[:])
 	if err != nil {
 		return err
 	}
@@ -279,7 +282,10 @@ func (s *TxStore) insertMinedTxForImporting(tx mwdb.DBTransaction,
 	nsBlocks := tx.FetchBucket(s.bucketMeta.nsBlocks)
 	nsTxRecords := tx.FetchBucket(s.bucketMeta.nsTxRecords)
 
-	_, v := existsTxRecord(nsTxRecords, &rec.Hash, block)
+	_, v, err := existsTxRecord(nsTxRecords, &rec.Hash, block)
+	if err != nil {
+		return err
+	}
 	exists := v != nil
 
 	blockKey, blockValue, err := existsBlockRecord(nsBlocks, block.Height)
@@ -360,7 +366,10 @@ func insertIntoBlockRecord(nsBlocks, nsTxRecords mwdb.Bucket, blockKey, blockVal
 	}
 	pos := len(blkRec.transactions)
 	for i := range blkRec.transactions {
-		_, v := existsTxRecord(nsTxRecords, &blkRec.transactions[i], &blkRec.BlockMeta)
+		_, v, err := existsTxRecord(nsTxRecords, &blkRec.transactions[i], &blkRec.BlockMeta)
+		if err != nil {
+			return err
+		}
 		if v == nil {
 			continue
 		}
@@ -398,7 +407,10 @@ func (s *TxStore) removeDoubleSpends(tx mwdb.DBTransaction, rec *TxRecord) error
 		prevOut := &txIn.PreviousOutPoint
 		prevOutKey := canonicalOutPoint(&prevOut.Hash, prevOut.Index)
 
-		doubleSpendHashes := fetchUnminedInputSpendTxHashes(nsUnminedInputs, prevOutKey)
+		doubleSpendHashes, err := fetchUnminedInputSpendTxHashes(nsUnminedInputs, prevOutKey)
+		if err != nil {
+			return err
+		}
 		for _, doubleSpendHash := range doubleSpendHashes {
 			doubleSpendVal, err := existsRawUnmined(nsUnmined, doubleSpendHash[:])
 			if err != nil {
@@ -439,7 +451,10 @@ func (s *TxStore) removeConflict(tx mwdb.DBTransaction, rec *TxRecord) error {
 
 	for i := range rec.MsgTx.TxOut {
 		k := canonicalOutPoint(&rec.Hash, uint32(i))
-		spenderHashes := fetchUnminedInputSpendTxHashes(nsUnminedInputs, k)
+		spenderHashes, err := fetchUnminedInputSpendTxHashes(nsUnminedInputs, k)
+		if err != nil {
+			return err
+		}
 		for _, spenderHash := range spenderHashes {
 			spenderVal, err := existsRawUnmined(nsUnmined, spenderHash[:])
 			if err != nil {
@@ -543,7 +558,10 @@ func (s *TxStore) ExistsTx(tx mwdb.ReadTransaction, out *wire.OutPoint) (mtx *wi
 	}
 
 	if found {
-		_, recVal := existsTxRecord(nsTxRecords, &cred.outPoint.Hash, cred.block)
+		_, recVal, err := existsTxRecord(nsTxRecords, &cred.outPoint.Hash, cred.block)
+		if err != nil {
+			return nil, nil, err
+		}
 		_, txLoc, err := readTxRecordLoc(recVal)
 		if err != nil {
 			return nil, nil, err
@@ -617,7 +635,11 @@ func (s *TxStore) ExistsUtxo(tx mwdb.ReadTransaction, out *wire.OutPoint) (flags
 				})
 			return nil, fmt.Errorf("unexpected error")
 		}
-		cred.flags.SpentByUnmined = existsRawUnminedInput(nsUnminedInputs, canonicalOutPoint(&out.Hash, out.Index)) != nil
+		spender, err := existsRawUnminedInput(nsUnminedInputs, canonicalOutPoint(&out.Hash, out.Index))
+		if err != nil {
+			return nil, err
+		}
+		cred.flags.SpentByUnmined = spender != nil
 		return &cred.flags, nil
 	}
 
@@ -645,7 +667,11 @@ func (s *TxStore) ExistsUtxo(tx mwdb.ReadTransaction, out *wire.OutPoint) (flags
 					})
 				return nil, fmt.Errorf("unexpected error")
 			}
-			cred.flags.SpentByUnmined = existsRawUnminedInput(nsUnminedInputs, canonicalOutPoint(&out.Hash, out.Index)) != nil
+			spender, err := existsRawUnminedInput(nsUnminedInputs, canonicalOutPoint(&out.Hash, out.Index))
+			if err != nil {
+				return nil, err
+			}
+			cred.flags.SpentByUnmined = spender != nil
 			return &cred.flags, nil
 		}
 	}
@@ -676,7 +702,11 @@ func (s *TxStore) ExistsUtxo(tx mwdb.ReadTransaction, out *wire.OutPoint) (flags
 						})
 					return nil, fmt.Errorf("unexpected error")
 				}
-				cred.flags.SpentByUnmined = existsRawUnminedInput(nsUnminedInputs, canonicalOutPoint(&out.Hash, out.Index)) != nil
+				spender, err := existsRawUnminedInput(nsUnminedInputs, canonicalOutPoint(&out.Hash, out.Index))
+				if err != nil {
+					return nil, err
+				}
+				cred.flags.SpentByUnmined = spender != nil
 				cred.flags.IsUnmined = true
 				return &cred.flags, nil
 			}
@@ -726,7 +756,10 @@ func (s *TxStore) Rollback(tx mwdb.DBTransaction, height uint64) error {
 		for i := len(rbBlock.transactions) - 1; i >= 0; i-- {
 			txHash := &rbBlock.transactions[i]
 
-			recKey, recVal := existsTxRecord(nsTxRecords, txHash, &rbBlock.BlockMeta)
+			recKey, recVal, err := existsTxRecord(nsTxRecords, txHash, &rbBlock.BlockMeta)
+			if err != nil {
+				return err
+			}
 			blkLoc, txLoc, err := readTxRecordLoc(recVal)
 			if err != nil {
 				logging.CPrint(logging.WARN, "readTxRecordLoc failed",
@@ -1132,7 +1165,10 @@ func (s *TxStore) Rollback(tx mwdb.DBTransaction, height uint64) error {
 	// remove coinbase credits
 	for _, op := range coinBaseCredits {
 		opKey := canonicalOutPoint(&op.Hash, op.Index)
-		unminedSpendTxHashKeys := fetchUnminedInputSpendTxHashes(nsUnminedInputs, opKey)
+		unminedSpendTxHashKeys, err := fetchUnminedInputSpendTxHashes(nsUnminedInputs, opKey)
+		if err != nil {
+			return err
+		}
 		for _, unminedSpendTxHashKey := range unminedSpendTxHashKeys {
 			unminedVal, err := existsRawUnmined(nsUnmined, unminedSpendTxHashKey[:])
 			if err != nil {
